@@ -14,13 +14,26 @@ KINDS = ['number', 'datetime', 'blank']
 
 
 def find_table(model):
+    """The conversion table, found by its evaluated shape: a module-level mapping whose keys are exactly the four operator
+    lexemes and whose values are mappings (written as a literal or built by a comprehension)."""
     for m in model.modules.values():
         for name, node in m.constants.items():
-            if isinstance(node, ast.Dict) and node.keys and all(isinstance(kk, ast.Constant) for kk in node.keys) and \
-                    sorted(kk.value for kk in node.keys if isinstance(kk.value, str)) == sorted(OPS) and \
-                    all(isinstance(v, ast.Dict) for v in node.values):
+            if isinstance(node, ast.Dict):
+                if not (node.keys and all(isinstance(kk, ast.Constant) for kk in node.keys) and
+                        sorted(kk.value for kk in node.keys if isinstance(kk.value, str)) == sorted(OPS)):
+                    continue
+            elif not isinstance(node, (ast.DictComp, ast.Call)):
+                continue
+            elif isinstance(node, ast.Call) and not (isinstance(node.func, ast.Name) and node.func.id == 'dict'):
+                continue
+            try:
+                v = Interp(model).const_expr(m, node)
+            except Exception:
+                continue
+            if isinstance(v, DictV) and v.pairs and all(isinstance(k_, Const) for k_, _ in v.pairs) and \
+                    sorted(str(k_.value) for k_, _ in v.pairs) == sorted(OPS) and all(isinstance(x, DictV) for _, x in v.pairs):
                 return m, name, node
-    raise AnalysisError('conversion table (dict keyed by + - * /) not found (anchor vanished)')
+    raise AnalysisError('conversion table (mapping keyed by + - * /) not found (anchor vanished)')
 
 
 def kind_of_key(v):
